@@ -31,6 +31,8 @@ func init() {
 			Trusted:     commonTrusted,
 		},
 		Mutants: []Mutant{
+			{Name: "'_' without a piped value dereferences nil in evaluateArgs (original defect)", File: "eval.go", Old: "\t\t\tif pipedArg == nil {\n\t\t\t\treturn nil, fmt.Errorf(\"argument for position %d in %s is a '_' placeholder, but there is no piped value\", slot, fnType)\n\t\t\t}\n\t\t\tterm = *pipedArg", New: "\t\t\tterm = *pipedArg", Rule: "C12.piped"},
+			{Name: "'_' without a piped value dereferences nil in Arguments.Get (original defect)", File: "func.go", Old: "\t\t\tif a.pipedVal == nil {\n\t\t\t\te.errorf(\"'_' placeholder used without a piped value\")\n\t\t\t}\n", New: "", Rule: "C12.piped"},
 			{Name: "validity guard before formatting the type dropped (agent seed C12/2)", File: "eval.go", Old: "\tif !term.IsValid() {\n\t\tnode.errorf(\"base expression of command pipe node is invalid value\")\n\t}\n", New: "", Rule: "C12.report"},
 			{Name: "type of a possibly-nil call target formatted with Type() (original defect)", File: "eval.go", Old: "node.errorf(\"node %q is not func kind %q\", node.BaseExpr, getTypeString(baseExpr))", New: "node.errorf(\"node %q is not func kind %q\", node.BaseExpr, baseExpr.Type())", Rule: "C12.report"},
 			{Name: "line numbers counted over emitted items only (agent seed C12/1, reduced)", File: "lex.go", Old: "\treturn 1 + strings.Count(l.input[:l.lastPos], \"\\n\")", New: "\treturn 1 + strings.Count(l.input[l.start:l.lastPos], \"\\n\")", Rule: "C12.line"},
@@ -50,6 +52,7 @@ func init() {
 }
 
 func runC12(c *an.Ctx) {
+	c12piped(c)
 	p := c.P
 	info := p.Jet.TypesInfo
 	eval, parse := p.Eval(), p.Parse()
